@@ -348,7 +348,7 @@ package thrift
 //@   ensures[C16] err == nil ==> fresh(s)
 
 //@ func BinaryProtocol.ReadMessageBegin
-//@   props C03, C12, C17
+//@   props C03, C12, C16, C17
 //@   let hdr = vs.BE32(buf, 0)
 //@   let nsz = int(int32(vs.BE32(buf, 4)))
 //@   ensures len(buf) < 4 ==> err == errReadMessage && l == 0
@@ -358,6 +358,7 @@ package thrift
 //@   ensures len(buf) >= 8 && hdr & 0xffff0000 == 0x80010000 && nsz >= 0 && len(buf) < 12+nsz ==> err == errReadMessage && l == 0
 //@   ensures len(buf) >= 8 && hdr & 0xffff0000 == 0x80010000 && nsz >= 0 && len(buf) >= 12+nsz ==>
 //@           err == nil && l == 12+nsz && typeID == int32(hdr & 0xffff) && len(name) == nsz && eqbytes(name, 0, buf, 8, nsz) && seq == int32(vs.BE32(buf, 8+nsz))
+//@   ensures[C16] err == nil ==> fresh(name)
 
 // ---- no-copy writers ----
 // Ghost view of a NocopyWriter: how many pieces were handed over, and the last piece.
@@ -579,7 +580,7 @@ package thrift
 
 //@ func BufferReader.ReadMessageBegin
 //@   arith int
-//@   props C03, C12, C17
+//@   props C03, C12, C16, C17
 //@   requires !isnil(r.r)
 //@   let U = r.r.$u
 //@   let hdr = vs.BE32(U, 0)
@@ -590,6 +591,7 @@ package thrift
 //@   ensures len(U) >= 4 && hdr & 0xffff0000 == 0x80010000 && (len(U) < 8 || (nsz >= 0 && len(U) < 12 + nsz)) ==> err != nil
 //@   ensures len(U) >= 8 && hdr & 0xffff0000 == 0x80010000 && nsz >= 0 && len(U) >= 12 + nsz ==>
 //@           err == nil && typeID == int32(hdr & 0xffff) && len(name) == nsz && eqbytes(name, 0, U, 8, nsz) && seq == int32(vs.BE32(U, 8 + nsz)) && rdTake(r.r, 12 + nsz)
+//@   ensures[C16] err == nil ==> fresh(name)
 //@   ensures[C17] err != nil && err != errNegativeSize && err != errBadVersion ==> wraps(err, r.r)
 //@   assigns r.r.$u, r.r.$readlen, r.r.$lasterr
 
@@ -1040,7 +1042,7 @@ package thrift
 
 //@ func UnmarshalFastMsg
 //@   arith int
-//@   props C03, C12
+//@   props C03, C12, C16
 //@   requires !isnil(msg)
 //@   let hdr = vs.BE32(b, 0)
 //@   let nsz = int(int32(vs.BE32(b, 4)))
@@ -1050,6 +1052,7 @@ package thrift
 //@   ensures okhdr && hdr & 0xffff == 3 ==> err != nil && msg.$nreads == old(msg.$nreads)
 //@   ensures okhdr && hdr & 0xffff == 3 && vs.FieldsLenD(b[12+nsz:], 65) >= 0 ==> istype(err, *ApplicationException)
 //@   ensures okhdr && hdr & 0xffff != 3 ==> msg.$nreads == old(msg.$nreads) + 1 && region(msg.$lastread) == region(b) && offset(msg.$lastread) == offset(b) + 12 + nsz && len(msg.$lastread) == len(b) - 12 - nsz
+//@   ensures[C16] okhdr ==> fresh(method)
 //@   assigns msg.$nreads, msg.$lastread
 
 // ---- ReaderSkipDecoder: reads exactly what is asked for from an io.Reader into a pooled buffer ----
